@@ -63,7 +63,7 @@ package absnfs
 // C06: a value that was never issued, or was issued for this very path, is the only thing Allocate may return
 //@ ensures [issued-stable-fresh-id] {C06} result >= old(fm.nextHandle) ==> !old(issuedHas[fm][result])
 //@ ensures [counter-monotone] {C06} fm.nextHandle >= old(fm.nextHandle) && result < fm.nextHandle
-//@ ensures [issued-stable-reused-id] {C06} !old(issuedHas[fm][result]) || old(issuedPath[fm][result]) == nodePath(f)
+//@ ensures [kf-issued-stable-reused-id] {C06} !old(issuedHas[fm][result]) || old(issuedPath[fm][result]) == nodePath(f)
 //@ ensures [issued-inv] {C06} issuedInv(fm)
 //@ loop 2 invariant fm != nil && held(fm.RWMutex) == -1 && evictCount >= 0 && len(fm.handles) - evictCount <= maxH && maxH == maxEff(fm)
 //@ loop 2 invariant has(fm.handles, handle) && fm.handles[handle] == f
@@ -119,4 +119,5 @@ package absnfs
 // a handle value is served on exactly the object the table holds for it, or not at all (no fallback object)
 //@ ensures [exact-or-stale] result1 ==> has(h.server.handler.fileMap.handles, handle) && typeof(h.server.handler.fileMap.handles[handle]) == typeid(*NFSNode) && result0 == ptrof(h.server.handler.fileMap.handles[handle], *NFSNode)
 //@ ensures [miss-is-nil] !result1 ==> result0 == nil
+//@ ensures [unlocked] held(h.server.handler.fileMap.RWMutex) == 0
 //@ ensures [miss-iff] !has(h.server.handler.fileMap.handles, handle) ==> !result1
